@@ -169,8 +169,13 @@ pub fn check_case(c: &BoundsCase, l: &mut Local) -> Result<(), String> {
 }
 
 fn case_strategy() -> BoxedStrategy<BoundsCase> {
-    let hist = (history_strategy(false, false, 20), prop_oneof![3 => Just(0u8), 1 => Just(1u8), 1 => Just(2u8)]).prop_map(|(mut h, mk)| {
+    // SPL Token, extension-free Token-2022, mixed, and Token-2022 mints with (different) transfer fees
+    let hist = (history_strategy(false, false, 20), prop_oneof![3 => Just(0u8), 1 => Just(1u8), 1 => Just(2u8), 2 => Just(3u8)], tf_strategy(), tf_strategy()).prop_map(|(mut h, mk, tf1, tf2)| {
         h.spec.mint_kind = mk;
+        if mk == 3 {
+            h.spec.tf1 = tf1;
+            h.spec.tf2 = tf2;
+        }
         h
     });
     let swap = (0u8..2, any::<bool>(), any::<bool>(), swap_amount_strategy(), limit_strategy(), any::<bool>())
